@@ -381,4 +381,12 @@ theorem grid_p_norm_eq_model (ramp : List β → α → α → Nat → List (Lis
   | norm => simp [hvert, h0, hpn, Except.map]
 
 end
+
+/-! non-vacuity of the guards of `exact_p_norm_eq_model` / `grid_p_norm_eq_model`: `p = 2` on a tent, and on its grid samples -/
+example : checkP (2 : Rat) ≠ .sup ∧ hasVerticalSeg ([[(0, 0), (1, 1), (2, 0)]] : List (List (Rat × Rat))) = false ∧
+    ((2 : Rat) == 0) = false := by decide
+example : hasVerticalSeg (valuesToPairs ([0, 1, 2] : List Rat) [[0, 1, 0]]) = false := by decide
+/-- … and the excluded case is inhabited: `p = -1` is the sup-norm code -/
+example : checkP (-1 : Rat) = .sup := by decide
+
 end PersimVerif.SrcBridge.LandscapeNorm
